@@ -97,13 +97,35 @@ Definition memoize (c : ctx_table) (n : name) : option name :=
 Inductive validity := VAll | VSome (s : list name).
 Definition alts_of (c : ctx_table) (n : name) : list name :=
   match find_arm n (ct_groups c) with Some alts => alts | None => [n] end.
+(* a condition over pure calls only (no field is read): the calls' results are the environment;
+   a comparison of integer expressions has no meaning here (the translator's type checker never
+   produces one in these positions, the checker demands the plain call) *)
+Fixpoint lookup_b (x : name) (env : list (name * bool)) : bool :=
+  match env with
+  | [] => false
+  | (y, t) :: r => if name_eqb x y then t else lookup_b x r
+  end.
+Fixpoint bpure (env : list (name * bool)) (b : bexp) : bool :=
+  match b with
+  | BLit t => t
+  | BVar x => lookup_b x env
+  | BAnd x y => bpure env x && bpure env y
+  | BOr x y => bpure env x || bpure env y
+  | BNot x => negb (bpure env x)
+  | BEq _ _ | BNe _ _ => false
+  end.
+(* register_is_valid: `if let Some(ref which) = valid { match reg { <groups>, _ => <ct_valid_default> } } else { <ct_valid_all> }` *)
 Definition is_valid (c : ctx_table) (n : name) (v : validity) : bool :=
   match v with
-  | VAll => is_some (memoize c n)
-  | VSome s => existsb (fun a => mem a s) (alts_of c n)
+  | VAll => bpure [(v_memo, is_some (memoize c n))] (ct_valid_all c)
+  | VSome s => match find_arm n (ct_groups c) with
+               | Some alts => existsb (fun a => mem a s) alts
+               | None => bpure [(v_contains, mem n s)] (ct_valid_default c)
+               end
   end.
+(* get_register: `if <ct_get_cond> { Some(self.get_register_always(reg)) } else { None }` *)
 Definition get_register (c : ctx_table) (rf : regfile) (n : name) (v : validity) : outcome (option Z) :=
-  if is_valid c n v then
+  if bpure [(v_iv, is_valid c n v)] (ct_get_cond c) then
     match get_always c rf n with
     | Ret x => Ret (Some x) | Fail => Fail | Panic t => Panic t | OutOfFuel => OutOfFuel
     end
